@@ -39,7 +39,7 @@ def run(chk, judge, weights):
             args = ['--font', fpath, '--mut', mut, '--scratch', scratch, '--judge', judge]
             if tpath:
                 args += ['--texts', tpath]
-            parts.append(dict(harness='h_face', flavour='asan', args=args, cases=max(1, n // nsh), nshards=nsh, nsamples=1 if mut in ('sweep', 'field', 'rel', 'tail') else 0))
+            parts.append(dict(harness='h_face', flavour='asan', args=args, cases=max(1, n // nsh), nshards=nsh, nsamples=1 if mut in ('sweep', 'field', 'rel', 'tail', 'cut') else 0))
     if 'fuzz' in weights:
         q, th = weights['fuzz']
         for fpath, ff in fuzz_files():
